@@ -90,6 +90,18 @@ def run(F, R):
     # if a driver that looks buffers up by token stores each buffer under the token returned by the add that submitted
     # it (shared with C16.S4; the buffered network driver is the only such table outside the queue module)
     p8_release_after_completion(F, R, M)
+    p9_platform_flag(F, R, M)
+    # P10: the device is given exactly the addresses obtained from DMA allocation: the transports' queue_set write the
+    # three area addresses they receive - each 64-bit address split into its own low/high words - and nothing else
+    # (register traces shared with C10.M2 / C11.W3)
+    from . import C10 as _c10, C11 as _c11
+    _qs = lambda inst: 'queue_set' in inst
+    _c10.ONLY_OPS = {'queue_set'}
+    try:
+        _c10.run(F, RuleProxy(R, {'M2': 'P10'}, only=_qs))
+    finally:
+        _c10.ONLY_OPS = None
+    _c11.run(F, RuleProxy(R, {'W3': 'P10'}, only=_qs))
     from .C16 import s4_custody
     from . import C05 as _c5
     s4_custody(F, R, M, _c5.classify_api(_c5.queue_api(F, M)), rule='P7', only=('receive', 'recycle_rx_buffer'))
@@ -292,3 +304,34 @@ def p8_release_after_completion(F, R, M):
                     'a buffer handed to pop_used was moved out of driver state by %s before the pop; if the pop refuses (NotReady / WrongToken) the buffer '
                     'is dropped while the device still holds its shared address and it is never unshared' % bad)
     R.count('refusable_pop_sites', n)
+
+
+def p9_platform_flag(F, R, M, rule='P9'):
+    """P9: share and unshare agree on the platform-access mode: every Hal::share / Hal::unshare reached from the
+    submission and completion entry points receives, as its access-platform argument, the value of one and the same
+    private queue field (never another boolean of the queue), so a buffer is unshared in the mode it was shared in and
+    the device address handed out is the one valid for the negotiated mode."""
+    from . import C05
+    roles = C05.classify_api(C05.queue_api(F, M))
+    by = {}
+    for k, v in roles.items():
+        by.setdefault(v, []).append(k)
+    seen = {}
+    nsites = 0
+    for role in ('add', 'pop_used'):
+        for fid in by.get(role, [])[:1]:
+            sg = supergraph(F, fid)
+            S = sg.sym
+            for n in hal_calls(sg):
+                if n.d.get('method') not in ('share', 'unshare'):
+                    continue
+                nsites += 1
+                t = strip_conv(S.operand(n.id, n.d['args'][-1]))
+                flds = sorted(set(x[1][2][-1][1] for x in subterms(t) if x[0] in ('load', 'load0') and x[1][2] and x[1][2][-1][0] == 'f' and x[1][2][-1][2] == M.queue_adt))
+                key = tuple(flds) if flds and t[0] in ('load', 'load0') else ('<%s>' % fmt(t)[:40],)
+                seen.setdefault(key, []).append((n.d['method'], site(sg, n)))
+    R.count('platform_flag_sites', nsites)
+    ok = len(seen) == 1 and all(len(k) == 1 and not k[0].startswith('<') for k in seen)
+    R.check(ok, rule, 'access-platform-argument', '', 'all %d share/unshare calls pass queue field `%s`' % (nsites, list(seen)[0][0] if seen else '?'),
+            'share/unshare calls do not all pass the same queue field as the access-platform argument: %s' % {
+                ','.join(k): ['%s @ %s' % v for v in vs][:3] for k, vs in seen.items()})
